@@ -1,6 +1,7 @@
 CONSTANTS
   Locs = {"en", "fr", "de"}
   Default = "en"
+  HeaderSpellings = {"spaced"}
   HeaderToks = {"fr", "it"}
   MaxCtx = 3
   MaxViews = 4
